@@ -622,6 +622,17 @@ def k13_citations(ctx, pid: str):
             if e[0] == "contains" and e[2] == CIT:
                 asked = True
                 absent = absent or (e[3] is False)
+        # a hand-written linear search of the list: `for n, known in enumerate(refs, 1): if known == ref: return n`; the
+        # iteration that answers is the first one whose element equals the reference (the body leaves the loop there), and a
+        # walk that ends without an answer has compared every element
+        scan = None
+        for t, v in o.path.choices:
+            m_ = re.match(r"^equal (?:item1\(elem-of\((enumerate\(.*\))\)\) cit|cit item1\(elem-of\((enumerate\(.*\))\)\))$", t)
+            if m_ and "references" in t:
+                scan = (m_.group(1) or m_.group(2), v)
+        if scan is not None:
+            asked = True
+            absent = absent or (scan[1] is False)
         if not stores:
             return []
         if len(stores) != 1:
@@ -667,6 +678,16 @@ def k13_citations(ctx, pid: str):
                 # len() evaluated after the append (the new length) or before it (the old length + 1): the same number
                 ok = len(lens) == 1 and idx == Aff.sym(lens[0]) + 1
             written_formats.append(val.fmt)
+        elif scan is not None and scan[1] is True and isinstance(val, Term) and val.op == "format" and len(val.args) == 2:
+            # the number written is the counter of the answering iteration: 1-based exactly when the count starts at 1
+            fmt_, num = val.args
+            ok = repr(num) == "item0(elem-of(%s))" % scan[0] and scan[0].endswith(",start=1)") and "annotations(rec)" in scan[0]
+            if not ok:
+                det += " (position counted by %s)" % scan[0]
+            try:
+                written_formats.append(ast.literal_eval(fmt_.op))
+            except Exception:
+                ok = False
         out.append(("K13.writer", name, ok, det))
         okpos = isinstance(key, Aff) and key == Aff.sym("idx") and "citation" in repr(obj)
         out.append(("K13.writer-slot", name, okpos, "the i-th citation must be written back to slot i: key %r of %r" % (key, obj)))
@@ -754,9 +775,15 @@ def _entity_hooks(p):
         return hook
 
     for cname in ("moclo.core.modules.AbstractModule", "moclo.core.vectors.AbstractVector"):
-        hooks[cname + ".overhang_start"] = mk("start")
-        hooks[cname + ".overhang_end"] = mk("end")
-        hooks[cname + ".target_sequence"] = mk("target")
+        for meth, kind in (("overhang_start", "start"), ("overhang_end", "end"), ("target_sequence", "target")):
+            hooks["%s.%s" % (cname, meth)] = mk(kind)
+            # ... under the name of the function that implements it, wherever the class takes it from (a shared base class)
+            try:
+                raw = p.class_attr_def(p.get_class(cname), meth)[1]
+            except AnalysisError:
+                raw = None
+            if isinstance(raw, FuncInfo):
+                hooks[raw.qualname] = mk(kind)
     return hooks
 
 
@@ -1004,7 +1031,19 @@ def _find_walk_loop(p, fi: FuncInfo):
                             return found
         return None, {}
 
-    return search(fi, 2)
+    found = search(fi, 2)
+    if found[0] is None:
+        # a walk bounded by a number of rounds: `for _ in range(len(modmap) + 1): if kappa == stop: break ...` -- the
+        # inductive step is the same; that the rounds suffice is an arithmetic side condition (see k14_walk)
+        for node in ast.walk(fi.node):
+            if isinstance(node, ast.For) and isinstance(node.iter, ast.Call) and isinstance(node.iter.func, ast.Name) and node.iter.func.id == "range" \
+                    and any(isinstance(x, ast.Break) for b in node.body for x in ast.walk(b)) and not node.orelse:
+                names = assigned_in(node.body)
+                for x in ast.walk(node.target):
+                    if isinstance(x, ast.Name):
+                        names.add(x.id)
+                return node, {fi.qualname: names}
+    return found
 
 
 def k14_walk(ctx, pid: str):
@@ -1062,6 +1101,15 @@ def k14_walk(ctx, pid: str):
 
     hooks["havoc"] = havoc
 
+    def rounds_invariant(fr, st, rng, j):
+        # after j completed rounds the map holds j entries less than when the walk began (every completed round removes
+        # exactly one entry and adds none: K14.step-consume), so j never exceeds the length the bound was computed from
+        I = fr.I
+        for b_ in ("M", "copy-of:M"):
+            I.path.cons.add(Aff.sym("len:map:%s" % b_) - j)
+
+    hooks["for_invariant"] = rounds_invariant
+
     def make_args(I):
         V = _entity(vec_cls, "V")
         mods = ACollection("modules", lambda: _entity(mod_cls, "m"))
@@ -1073,6 +1121,7 @@ def k14_walk(ctx, pid: str):
         return (build_manager(I, mgr, V, mods), M), {}
 
     START_V, END_V = Term("start", Term("V")), Term("end", Term("V"))
+    working = {"step": set(), "exit": set()}  # which map the steps consume / the exit examines (the map handed in, or a copy)
 
     def post(I, o):
         name = fi.qualname
@@ -1103,6 +1152,11 @@ def k14_walk(ctx, pid: str):
         out.append(("K14.manager-state", name, not rewrites,
                     "the walk rewrites the manager's own %s: what assemble() does next (annotation naming every supplied module, the citation "
                     "rewrite over every element) reads it" % ", ".join("self." + a for a in rewrites)))
+        if dict(o.path.choices).get("loop-exhausted"):
+            return out + [("K14.stop", name, False,
+                           "the walk is bounded by a number of rounds that can run out before the chain is closed (after as many "
+                           "completed rounds as the bound allows, the current overhang need not be the vector's upstream overhang): "
+                           "the product is then returned for an incomplete chain")]
         cmps = [(strip_norm(e[1]), strip_norm(e[2])) for e in o.path.effects if e[0] == "compare"]
         stop = [c for c in cmps if {repr(c[0]), repr(c[1])} == {repr(KAPPA), repr(START_V)}]
         out.append(("K14.stop", name, len(stop) >= 1 and len(cmps) == len(stop),
@@ -1111,12 +1165,23 @@ def k14_walk(ctx, pid: str):
         pops = [e for e in o.path.effects if e[0] in ("map-pop", "map-getitem")]
         if cond:
             # one inductive step
+            asked = [e for e in o.path.effects if e[0] == "map-haskey" and strip_norm(e[2]) == KAPPA]
+            absent = [v for t, v in o.path.choices if t.startswith("haskey ") and v is False]
+            if not pops and asked and absent:
+                # the step tests `kappa in map` first and found nothing filed under the current overhang
+                ok = o.kind == "raise" and _is_exc(p, o.value, "moclo.errors.MissingModule")
+                okarg = ok and o.value.args and strip_norm(o.value.args[0]) == KAPPA
+                out.append(("K14.missing", name, bool(ok and okarg),
+                            "a missing module must raise MissingModule naming the overhang at which the chain stalls: got %r" % (o,)))
+                return out
             if not pops or any(strip_norm(e[2]) != KAPPA for e in pops):
                 lookups = [e for e in o.path.effects if e[0] in ("map-get", "map-pop")]
                 return out + [("K14.step-consume", name, False,
                                "each step must remove the module filed under the current overhang from the map (consuming lookup): %r" % (lookups,))]
             hit = any((t.startswith("pop ") or t.startswith("getitem ")) and v == "hit" for t, v in o.path.choices)
             mname = "M[%r]" % (pops[0][2],)
+            pop_bases = {e[1] for e in pops}
+            working["step"] |= pop_bases
             if not hit:
                 ok = o.kind == "raise" and _is_exc(p, o.value, "moclo.errors.MissingModule")
                 okarg = ok and o.value.args and strip_norm(o.value.args[0]) == KAPPA
@@ -1138,8 +1203,17 @@ def k14_walk(ctx, pid: str):
             out.append(("K14.step-next", name, bool(nxt) and not stale,
                         "the next overhang must be the consumed module's downstream overhang: state %r"
                         % ({k_: v for k_, v in env.items() if isinstance(v, Term)},)))
-            okmap = [repr(strip_norm(x)) for x in I.the_map.removes] == [repr(KAPPA)] and not I.the_map.adds
-            out.append(("K14.step-consume", name, okmap, "the consumed entry (and only it) must leave the map: %r" % (I.the_map,)))
+            # the map the walk consumes: the one it was handed, or a copy of it taken before the walk (`remaining = dict(modmap)`)
+            wmap = I.the_map
+            if pop_bases == {"copy-of:" + I.the_map.base}:
+                for v_ in env.values():
+                    cands_ = [v_] + (list(v_.attrs.values()) if isinstance(v_, AObj) else [])
+                    for c_ in cands_:
+                        if isinstance(c_, AMap) and c_.base == "copy-of:" + I.the_map.base:
+                            wmap = c_
+            okmap = [repr(strip_norm(x)) for x in wmap.removes] == [repr(KAPPA)] and not wmap.adds and len(pop_bases) == 1 \
+                and (wmap is I.the_map or (not I.the_map.removes and not I.the_map.adds))
+            out.append(("K14.step-consume", name, okmap, "the consumed entry (and only it) must leave the map: %r" % (wmap,)))
             reads = {(e[1], e[2]) for e in o.path.effects if e[0] == "read" and e[1].startswith("M[")}
             out.append(("K14.step-reads", name, reads <= {(mname, "target"), (mname, "end"), (mname, "start")},
                         "a step may read only the consumed module: %r" % (sorted(reads),)))
@@ -1148,17 +1222,24 @@ def k14_walk(ctx, pid: str):
         if pops:
             return out + [("K14.exit", name, False, "the map is consumed after the walk has ended")]
         nonempty = [v for t, v in o.path.choices if t.startswith("nonempty ")]
+        looked = {t[len("nonempty "):] for t, v in o.path.choices if t.startswith("nonempty ")}
         if not nonempty:
             # leftovers examined through len(modmap)
-            nonempty = [v for t, v in o.path.choices if t.startswith("arith len:map:M-1>=0")]
-            nonempty += [not v for t, v in o.path.choices if t.startswith("arith -len:map:M>=0")]
+            for b_ in ("M", "copy-of:M"):
+                ne_ = [v for t, v in o.path.choices if t.startswith("arith len:map:%s-1>=0" % b_)]
+                ne_ += [not v for t, v in o.path.choices if t.startswith("arith -len:map:%s>=0" % b_)]
+                if ne_:
+                    looked.add(b_)
+                nonempty += ne_
+        working["exit"] |= {x for x in looked if x in ("M", "copy-of:M")}
+        the_looked = Term(sorted(looked)[0]) if len(looked) == 1 and sorted(looked)[0] in ("M", "copy-of:M") else Term(repr(I.the_map))
         warns = [e for e in o.path.effects if e[0] == "warn"]
         if not nonempty:
             out.append(("K14.unused", name, False, "left-over modules are never looked at when the walk ends"))
         elif nonempty[0]:
             okw = (len(warns) == 1 and _is_exc(p, warns[0][1], "moclo.errors.UnusedModules")
                    and len(warns[0][1].args) == 1 and isinstance(warns[0][1].args[0], tuple)
-                   and warns[0][1].args[0][0] == "starred" and repr(warns[0][1].args[0][1]) == repr(Term("values", Term(repr(I.the_map)))))
+                   and warns[0][1].args[0][0] == "starred" and repr(warns[0][1].args[0][1]) == repr(Term("values", the_looked)))
             out.append(("K14.unused", name, okw, "left-over modules must be reported by one UnusedModules warning naming exactly the values left in the map: %r" % (warns,)))
         else:
             out.append(("K14.unused", name, not warns, "no warning when every module was used: %r" % (warns,)))
@@ -1175,6 +1256,10 @@ def k14_walk(ctx, pid: str):
     outs = run_paths(ctx, fi, make_args, [], hooks=hooks, step_loop=loop, post=post)
     emit(ctx, outs, fi.where())
     r = ctx.report
+    if working["step"] and working["exit"]:
+        r.ob("K14.unused", fi.qualname + "#working-map", working["step"] == working["exit"],
+             "the walk consumes %s but the left-over modules are looked for in %s: the warning then names modules that were used"
+             % (sorted(working["step"]), sorted(working["exit"])), fi.where())
     for rule in ("K14.entry", "K14.stop", "K14.missing", "K14.step-append", "K14.step-next", "K14.step-consume", "K14.unused", "K14.exit"):
         r.floor(rule, 1)
 
